@@ -112,6 +112,10 @@ func c16Shapes() []c16Shape {
 		}
 	}
 	out = append(out, edge)
+	if os.Getenv("C16_RACE_PASS") != "" {
+		// supplementary race-detector pass (thorough tier): the two smallest shapes and the varint-boundary shape
+		return []c16Shape{out[0], out[1], out[len(out)-1]}
+	}
 	if vkit.Thorough() {
 		out = append(out,
 			mk("4-blocks/from-3", 2, 4, 3, 0, false),
